@@ -6,6 +6,31 @@ ROOT = os.path.dirname(os.path.abspath(__file__))
 
 # id -> (level category, technique, level text, level note, design ref)
 CLAIMED = {
+    "C03": ("exploration",
+            "rapid-generated frames over the protocol grammar forwarded through the proxy; byte-level differential between what the client sent / the backend sent and what the other side received",
+            "QUERY/EXECUTE/BATCH/PREPARE frames over the reference library's option space for every accepted version under every max-version, flags, compression (frames sent compressed or not), bodies up to 1 MiB (4 MiB thorough); generated raw backend replies of every result kind and error code, including error frames the pinned protocol library cannot decode. Oracle: header and body bytes equal on both sides except the stream id.",
+            "Outcomes are restricted to replies the policy does not retry; v5 uses the legacy frame layout; lz4 bodies that hit the recorded decoder finding are re-routed as literal-only blocks (counted).",
+            "DESIGN.md §2.3"),
+    "C09": ("exploration",
+            "rapid-generated statements from the product keyspace x qualifier x table x shape, checked against a reference model of the documented routing rule at parser level and end to end",
+            "The interception decision is compared with an independent model (CQL identifier semantics) for tens of thousands of generated spellings, and end to end as QUERY and PREPARE+EXECUTE with the keyspace set by USE, by a rejected USE, or by the PREPARE keyspace field: handled <=> the request token never reaches a backend.",
+            "Comments before SELECT / between FROM and the table are a recorded finding (excluded by signature).",
+            "DESIGN.md §2.9"),
+    "C10": ("exploration",
+            "rapid-generated proxy configurations and selector lists; reference model of the ring computed from the configuration; cross-proxy metamorphic relation (every member as self presents the same ring)",
+            "Peer lists of 0..16 IPv4/IPv6 nodes (alternative spellings, explicit/absent DCs and tokens, multi-DC backends, DSE or not); every member is started as self; generated projections as QUERY and PREPARE+EXECUTE; cells decoded with the reference data codecs and compared with the model; rings of all proxies compared.",
+            "Only valid configurations; aggregate-only row counts and WHERE are not asserted.",
+            "DESIGN.md §2.10"),
+    "C12": ("exploration",
+            "rapid-generated override configurations and requests; differential on decoded frames (reference codec) plus byte identity for untouched requests and a framing witness request",
+            "Any subset of consistency levels as the unsupported list and any override level; requests over the full option space, versions, flags and compressions; SELECT/DML/unknown-id ground truth by construction; the backend's frame must be byte-identical (not overridden) or decode to the client's request with only the consistency replaced, with the same flags and payload and a correct length (a second request follows immediately on the same backend connection).",
+            "Configuration goes through proxy.Config via the verif hook; option spellings are C20's business.",
+            "DESIGN.md §2.12"),
+    "C13": ("exploration",
+            "exhaustive enumeration of (version byte x max-version x opcode) in thorough, sampled in quick, plus rapid-generated interleaved handshake sequences against a model of the gate and of per-connection compression",
+            "One connection per cube point (256 x 5 x 8) checks protocol error/closure/never-forwarded and that the connection stays usable; generated sequences of OPTIONS/STARTUP (any COMPRESSION spelling)/REGISTER/gated frames/forwarded requests for 1..2 clients check exactly-one-reply, nothing at the backend, and that forwarded traffic runs with the client's algorithm and version.",
+            "Known versions are what the protocol library accepts (v2..v5, DSEv1, DSEv2); heartbeats disabled so that backend OPTIONS counts are meaningful.",
+            "DESIGN.md §2.13"),
     "C01": ("fault_enumeration",
             "rapid-generated concurrent request storms with scripted per-attempt backend faults and drop/release schedules; history invariant (one response per request stream)",
             "Generated histories of 1..4 pipelining clients against a scripted fake cluster (every error kind, hold, silence, connection drop before/after reply, simultaneous drops of several hosts), plus slow-consumer floods beyond the write-queue size; the oracle counts response frames per request stream after a positive wait, an OPTIONS fence and socket quiescence. The property quantifies over schedules and fault sequences, which a search over generated fault scripts explores but cannot exhaust.",
